@@ -74,7 +74,7 @@ pub fn worker_solve(task: &Value) -> Value {
         Err(e) => return json!({"status": "machinery", "msg": format!("spec cannot read the input: {}", e)}),
     };
     let inp2 = input.clone();
-    let want_hooks = props.iter().any(|p| p == "C08" || p == "C16" || p == "C07");
+    let want_hooks = props.iter().any(|p| p == "C08" || p == "C16" || p == "C07" || p == "C15");
     let res = pool::run_isolated(seed, move || {
         let _ = solver::verif_hooks::take_steps();
         let _ = solver::verif_hooks::take_stages();
@@ -97,7 +97,7 @@ pub fn worker_solve(task: &Value) -> Value {
     for p in &props {
         let r = match (p.as_str(), &parsed) {
             ("C06", _) => json!({"nt": false, "viol": []}),
-            ("C08", _) | ("C16", _) => extra.get("hooks").and_then(|h| h.get(p.as_str())).cloned().unwrap_or(json!({"nt": false, "viol": [["machinery", "no hook data"]]})),
+            ("C08", _) | ("C16", _) | ("C15", _) => extra.get("hooks").and_then(|h| h.get(p.as_str())).cloned().unwrap_or(json!({"nt": false, "viol": [["machinery", "no hook data"]]})),
             (_, Err(e)) => {
                 if p == "C03" {
                     json!({"nt": false, "viol": [["output-unreadable", e]]})
